@@ -80,6 +80,23 @@ func hashHistory(c *simkit.Choice, r *simkit.Rec) {
 	scratch := make([]byte, 0, 8192+64)
 	sums := 0
 	lastWasSum := false
+	// every slice Sum has returned stays what it was, whatever is done to the hash
+	// object afterwards (a result must not alias the object's own storage)
+	type kept struct {
+		got  []byte
+		copy []byte
+		op   int
+	}
+	var results []kept
+	stable := func() bool {
+		for _, k := range results {
+			if !bytes.Equal(k.got, k.copy) {
+				r.Violate("sum-result-changed", "sm3.Sum", fmt.Sprintf("the slice returned by Sum at operation %d changed later (ops %v): it was %x, it is now %x", k.op, ops, k.copy, k.got))
+				return false
+			}
+		}
+		return true
+	}
 	check := func(site string, got, want []byte) bool {
 		if !bytes.Equal(got, want) {
 			r.Violate("digest-mismatch", site, fmt.Sprintf("after ops %v (bytes since reset %d): got %x want %x", ops, written, got, want))
@@ -153,6 +170,10 @@ func hashHistory(c *simkit.Choice, r *simkit.Rec) {
 			if !check("sm3.Sum(nil)", got, want) {
 				return
 			}
+			results = append(results, kept{got, append([]byte(nil), got...), len(ops)})
+			if !stable() {
+				return
+			}
 			if off < L {
 				r.Fault(idx(hashFaults, "sum-mid-stream"))
 			}
@@ -190,6 +211,10 @@ func hashHistory(c *simkit.Choice, r *simkit.Rec) {
 				r.Violate("sum-prefix-clobbered", "sm3.Sum(prefix)", "bytes in front of len(prefix) were modified")
 				return
 			}
+			results = append(results, kept{got, append([]byte(nil), got...), len(ops)})
+			if !stable() {
+				return
+			}
 			sums++
 			lastWasSum = true
 		case 3: // Reset
@@ -218,6 +243,9 @@ func hashHistory(c *simkit.Choice, r *simkit.Rec) {
 		ops = append(ops, fmt.Sprintf("W%d", L-off))
 	}
 	if !check("sm3.Sum(nil)", impl.Sum(nil), ref.Sum(nil)) {
+		return
+	}
+	if !stable() {
 		return
 	}
 	one := sm3.Sm3Sum(msg)
